@@ -3,6 +3,7 @@
 #pragma once
 #include <cstdint>
 #include <cstring>
+#include <unistd.h>
 #include <map>
 #include <memory>
 #include <string>
@@ -301,18 +302,43 @@ struct Tiff
     std::string err_kind; // short class
 };
 
-inline uint64_t
-rd(const std::vector<uint8_t>& f, uint64_t off, int n)
+// Byte source: a file read with pread (files may be sparse and larger than memory).
+struct Src
 {
+    int fd = -1;
+    uint64_t n = 0;
+    uint64_t size() const { return n; }
+    bool read(uint64_t off, void* dst, size_t len) const
+    {
+        if (off + len > n || off + len < off)
+            return false;
+        uint8_t* p = (uint8_t*)dst;
+        while (len) {
+            ssize_t r = ::pread(fd, p, len, (off_t)off);
+            if (r <= 0)
+                return false;
+            p += r;
+            off += (uint64_t)r;
+            len -= (size_t)r;
+        }
+        return true;
+    }
+};
+
+inline uint64_t
+rd(const Src& f, uint64_t off, int n)
+{
+    uint8_t b[8] = { 0 };
+    f.read(off, b, (size_t)n);
     uint64_t v = 0;
     for (int i = 0; i < n; ++i)
-        v |= (uint64_t)f[off + i] << (8 * i);
+        v |= (uint64_t)b[i] << (8 * i);
     return v;
 }
 
 // Parses the file.  Returns false (with err / err_kind) on the first structural violation.
 inline bool
-read_tiff(const std::vector<uint8_t>& f, Tiff& t)
+read_tiff(const Src& f, Tiff& t)
 {
     auto bad = [&](const char* kind, const std::string& m) {
         t.err = m;
@@ -322,7 +348,7 @@ read_tiff(const std::vector<uint8_t>& f, Tiff& t)
     const uint64_t n = f.size();
     if (n < 16)
         return bad("header", "file shorter than a BigTIFF header (" + std::to_string(n) + " bytes)");
-    if (f[0] != 'I' || f[1] != 'I')
+    if (rd(f, 0, 1) != 'I' || rd(f, 1, 1) != 'I')
         return bad("header", "byte order mark is not little-endian 'II'");
     if (rd(f, 2, 2) != 43)
         return bad("header", "version is not 43 (BigTIFF)");
@@ -409,13 +435,18 @@ read_tiff(const std::vector<uint8_t>& f, Tiff& t)
                         return bad("tag", "ImageDescription appears twice");
                     d.has_desc = true;
                     if (count <= 8) {
-                        d.desc.assign((const char*)&f[q + 12], (size_t)count);
+                        char tmp[8];
+                        f.read(q + 12, tmp, (size_t)count);
+                        d.desc.assign(tmp, (size_t)count);
                     } else {
                         uint64_t so = rd(f, q + 12, 8);
                         if (so + count > n || so + count < so)
                             return bad("string-offset", "ImageDescription of directory " + std::to_string(di) + " ([" + std::to_string(so) + "," +
                                                           std::to_string(so + count) + ")) lies outside the file");
-                        d.desc.assign((const char*)&f[so], (size_t)count);
+                        if (count > (1u << 24))
+                            return bad("string-offset", "implausibly long ImageDescription");
+                        d.desc.resize((size_t)count);
+                        f.read(so, &d.desc[0], (size_t)count);
                         t.ivals.push_back({ so, so + count, "description", di });
                     }
                     // strip the terminator(s)
